@@ -202,7 +202,7 @@ func worker(scenarios []Scenario, sh string, budget time.Duration) {
 			}
 			if x.Panic != "" {
 				// handed to the oracle: some properties tolerate none, all report it
-				f, _ := sc.Check(x, obs)
+				f, _ := safeCheck(sc, x, obs)
 				if f != nil {
 					return f
 				}
@@ -211,7 +211,7 @@ func worker(scenarios []Scenario, sh string, budget time.Duration) {
 			if x.Deadlock && !sc.ExpectDeadlock {
 				return &Fail{"deadlock", "no thread can run: " + strings.Join(x.Blocked, "; ")}
 			}
-			f, out := sc.Check(x, obs)
+			f, out := safeCheck(sc, x, obs)
 			outcomes[out] = true
 			return f
 		}
@@ -331,6 +331,18 @@ func worker(scenarios []Scenario, sh string, budget time.Duration) {
 	os.WriteFile(os.Getenv("VERIF_OUT"), b, 0o644)
 }
 
+// safeCheck runs the scenario's oracle; the oracle reads the object under test through its public API
+// after the execution (final contents), and a panic there is a verdict about the code.
+func safeCheck(sc Scenario, x *vrt.Exec, obs any) (f *Fail, outcome string) {
+	defer func() {
+		if p := recover(); p != nil {
+			msg := fmt.Sprint(p)
+			f, outcome = &Fail{"panic-in-final-observation:" + short(msg), "reading the object after the execution panicked: " + msg}, ""
+		}
+	}()
+	return sc.Check(x, obs)
+}
+
 func short(s string) string {
 	s = strings.ReplaceAll(s, " ", "_")
 	if len(s) > 50 {
@@ -404,6 +416,13 @@ func coordinate(r *ev.Run, scenarios []Scenario, budget time.Duration, finish fu
 				}
 				first := strings.SplitN(msg, "\n", 2)[0]
 				results[ti] = shardResult{Race: t.bin == raceBin, Violations: []violation{{Sig: "fatal:" + short(strings.TrimPrefix(first, "fatal error: ")), Msg: "a worker process died with a fatal runtime error while exploring its scenarios: " + tail(msg), Scenario: fmt.Sprintf("shard %d", t.shard), Race: t.bin == raceBin}}}
+			} else if (rerr != nil || json.Unmarshal(b, &results[ti]) != nil) && strings.Contains(string(o), "\npanic: ") && !strings.Contains(string(o), "panic: vrt:") && strings.Contains(string(o), "gopkg.in/typ.v4/") {
+				// an ordinary panic that escaped in a worker with the library on the stack (for instance in
+				// a goroutine the library started itself during a set-up call): the process would have died
+				msg := string(o)
+				msg = msg[strings.Index(msg, "\npanic: ")+1:]
+				first := strings.SplitN(msg, "\n", 2)[0]
+				results[ti] = shardResult{Race: t.bin == raceBin, Violations: []violation{{Sig: "crash:" + short(strings.TrimPrefix(first, "panic: ")), Msg: "a worker process died with an unrecovered panic while exploring its scenarios: " + tail(msg), Scenario: fmt.Sprintf("shard %d", t.shard), Race: t.bin == raceBin}}}
 			} else if rerr != nil || json.Unmarshal(b, &results[ti]) != nil {
 				results[ti].Infra = fmt.Sprintf("worker %s shard %d produced no result (%v): %s", t.bin, t.shard, err, tail(string(o)))
 			}
@@ -588,7 +607,7 @@ func replayFile(scenarios []Scenario, file string) {
 		for _, l := range x.Trace {
 			fmt.Println("  ", l)
 		}
-		f, out := sc.Check(x, obs)
+		f, out := safeCheck(sc, x, obs)
 		fmt.Printf("deadlock=%v panic=%q races=%d outcome=%s\n", x.Deadlock, x.Panic, x.Races, out)
 		if f != nil || x.Panic != "" || (x.Deadlock && !sc.ExpectDeadlock) || x.Races > 0 {
 			fmt.Printf("REPRODUCED %v\n", f)
